@@ -170,7 +170,11 @@ def cut_statements(source, fn_header_regex, first_anchor, last_anchor, name):
     fn_piece, (fs, fe) = source.cut(fn_header_regex, name)
     text, mask = source.text, source.mask
     def find(pat):
-        hits = [i for i in range(fs, fe) if text.startswith(pat, i) and mask[i]]
+        if pat.startswith("re:"):
+            hits = [m.start() for m in re.finditer(pat[3:], text[fs:fe]) if mask[fs + m.start()]]
+            hits = [fs + h for h in hits]
+        else:
+            hits = [i for i in range(fs, fe) if text.startswith(pat, i) and mask[i]]
         if len(hits) != 1:
             raise WeaveError("lost anchor: %d matches for `%s` in %s" % (len(hits), pat, name))
         return hits[0]
